@@ -197,3 +197,65 @@ def arg_piece(arg, fields, helpers):
     if m and m.group(1) in fields and m.group(4) == m.group(2) and m.group(6) == m.group(3):
         return ("maplist", fields.index(m.group(1)), m.group(7), m.group(5))
     raise EncodingError(f"Display argument not understood: {arg}")
+
+
+# ------------------------------------------------------------------------------------------------------------
+def rust_lit(tok):
+    """Value of a Rust char or string literal token ('x' / "xy") with the escapes used in this code base."""
+    body = tok[1:-1]
+    out, i = [], 0
+    while i < len(body):
+        if body[i] == "\\":
+            i += 1
+            out.append({"n": "\n", "r": "\r", "t": "\t", "\\": "\\", '"': '"', "'": "'", "0": "\0"}.get(body[i], body[i]))
+        else:
+            out.append(body[i])
+        i += 1
+    return "".join(out)
+
+
+def value_display(value_src):
+    """`impl Display for Value`: for each variant the literal prefix / suffix around the payload and, for strings, the chain
+    of single-character replacements applied to the payload. Returns {variant: dict(prefix, suffix, replaces=[(c, s)..])}."""
+    m = re.search(r"impl Display for Value\s*\{", value_src)
+    if not m:
+        raise EncodingError("impl Display for Value not found")
+    end = balanced(value_src, m.end() - 1)
+    body = value_src[m.end():end]
+    mm = re.search(r"match self\s*\{", body)
+    mend = balanced(body, mm.end() - 1)
+    arms_txt = body[mm.end():mend - 1]
+    out = {}
+    heads = [(x.start(), x.group(1)) for x in re.finditer(r"(?m)^\s*Value::(\w+)(?:\([^)]*\))?\s*=>", arms_txt)]
+    for idx, (pos, variant) in enumerate(heads):
+        endp = heads[idx + 1][0] if idx + 1 < len(heads) else len(arms_txt)
+        text = arms_txt[pos:endp]
+        if variant in ("Vec", "Map", "DateTime", "Duration"):
+            continue   # the parser cannot produce these as literals
+        w = re.search(r"write!\(\s*formatter\s*,\s*\"((?:[^\"\\]|\\.)*)\"\s*(?:,(.*?))?\)\s*,?\s*$", text.strip(), re.S)
+        if not w:
+            raise EncodingError(f"Display arm of Value::{variant} not understood: {text.strip()[:100]}")
+        fmt = rust_lit('"' + w.group(1) + '"')
+        arg = (w.group(2) or "").strip().rstrip(",").strip()
+        ph = re.search(r"\{(\w*)\}", fmt)
+        if not ph:
+            out[variant] = {"prefix": fmt, "suffix": "", "payload": False, "replaces": []}
+            continue
+        prefix, suffix = fmt[:ph.start()], fmt[ph.end():]
+        reps = []
+        if ph.group(1) == "" and arg:
+            mchain = re.match(r"^(\w+)((?:\s*\.replace\(\s*(?:'(?:[^'\\]|\\.)'|\"(?:[^\"\\]|\\.)*\")\s*,\s*\"(?:[^\"\\]|\\.)*\"\s*\))*)$", arg, re.S)
+            if not mchain:
+                raise EncodingError(f"Display of Value::{variant}: argument `{arg[:80]}` is not a chain of single-character replacements")
+            for r in re.finditer(r"\.replace\(\s*('(?:[^'\\]|\\.)'|\"(?:[^\"\\]|\\.)*\")\s*,\s*(\"(?:[^\"\\]|\\.)*\")\s*\)", mchain.group(2)):
+                pat, rep = rust_lit(r.group(1)), rust_lit(r.group(2))
+                if len(pat) != 1:
+                    raise EncodingError(f"Display of Value::{variant}: replacement pattern {pat!r} is not a single character")
+                reps.append((pat, rep))
+        elif ph.group(1) == "" and not arg:
+            raise EncodingError(f"Display of Value::{variant}: positional placeholder without argument")
+        out[variant] = {"prefix": prefix, "suffix": suffix, "payload": True, "replaces": reps}
+    for need in ("String", "Int", "Float", "Decimal", "Bool", "None"):
+        if need not in out:
+            raise EncodingError(f"Display arm of Value::{need} not found")
+    return out
